@@ -818,6 +818,93 @@ func genLoaderFuzz(r *rand.Rand, n int) []*Probe {
 	return ps
 }
 
+// the little languages inside string arguments: FORMAT directives (flag, width, precision, verb) against values
+// of every class, DATETIME_FORMAT directives, regular expressions, JSON queries.  The boundary sweep passes
+// plain strings; a directive with a precision or width beyond the value is a different boundary.
+func genFormatSweep(r *rand.Rand, tier string) []*Probe {
+	var ps []*Probe
+	flags := []string{"", "+", "-", " ", "0"}
+	widths := []string{"", "0", "1", "5", "20", "1000", "99999999999999999999"}
+	precs := []string{"", ".", ".0", ".1", ".2", ".5", ".100", ".99999999999999999999"}
+	verbs := []string{"b", "o", "d", "x", "X", "e", "E", "f", "s", "q", "i", "T", "%", "z", ""}
+	vals := []string{"1", "-1", "1.5", "'ab'", "'あいう'", "''", "NULL", "TRUE", "'2012-02-03 09:18:15'", "9223372036854775807", "'a''b`c'"}
+	for _, f := range flags {
+		for _, w := range widths {
+			for _, pr := range precs {
+				for _, v := range verbs {
+					if tier != "thorough" && r.Intn(5) != 0 && !(pr != "" && (v == "s" || v == "q" || v == "i" || v == "T")) {
+						continue
+					}
+					if len(w) > 4 && tier != "thorough" && r.Intn(3) != 0 {
+						continue
+					}
+					val := vals[r.Intn(len(vals))]
+					ps = append(ps, funcProbe("FORMAT", []string{"'[%" + f + w + pr + v + "]'", val}))
+				}
+			}
+		}
+	}
+	for _, v := range vals {
+		for _, pr := range []string{".0", ".1", ".2", ".3", ".5", ".100"} {
+			for _, verb := range []string{"s", "q", "i", "T"} {
+				ps = append(ps, funcProbe("FORMAT", []string{"'%" + pr + verb + "|%5" + pr + verb + "|%-5" + pr + verb + "'", v, v, v}))
+			}
+		}
+	}
+	// datetime formats: every letter as a directive, a trailing %, long runs
+	for c := 'a'; c <= 'z'; c++ {
+		ps = append(ps, funcProbe("DATETIME_FORMAT", []string{"'2012-02-03 09:18:15.123456789'", "'%" + string(c) + "|%" + strings.ToUpper(string(c)) + "'"}))
+	}
+	for _, f := range []string{"'%'", "'%%'", "'%%%'", "''", "'%Y%'", "'%-'", "'\\%Y'", "'%あ'"} {
+		ps = append(ps, funcProbe("DATETIME_FORMAT", []string{"'2012-02-03 09:18:15'", f}))
+		ps = append(ps, funcProbe("DATETIME", []string{"'03/02/2012'", f}))
+	}
+	// regular expressions and JSON queries
+	for _, re := range []string{"'('", "'[a-'", "'a{2,1}'", "'(?P<n>a)'", "'\\'", "'a**'", "'(a|b)*c'", "'^$'", "''", "'.{1000}'", "'(?i)A'"} {
+		for _, fn := range []string{"REGEXP_MATCH", "REGEXP_FIND", "REGEXP_FIND_SUBMATCHES", "REGEXP_FIND_ALL"} {
+			ps = append(ps, funcProbe(fn, []string{"'abcabc'", re}))
+		}
+		ps = append(ps, funcProbe("REGEXP_REPLACE", []string{"'abcabc'", re, "'$1$n${x}\\1'"}))
+		ps = append(ps, funcProbe("REGEXP_FIND", []string{"'abcabc'", re, "5"}), funcProbe("REGEXP_FIND", []string{"'abcabc'", re, "-1"}))
+	}
+	for _, q := range []string{"''", "'a'", "'a.b'", "'a[0]'", "'a[9]'", "'a[]'", "'a{b}'", "'a{'", "'[0]'", "'a..b'", "'a[-1]'", "'{}'", "'a{b as c}'", "'.'"} {
+		for _, doc := range []string{`'{"a":{"b":1}}'`, `'{"a":[1,{"b":2}]}'`, "'[]'", "'1'", "'null'", "'{'", "''"} {
+			ps = append(ps, funcProbe("JSON_VALUE", []string{q, doc}))
+		}
+	}
+	return ps
+}
+
+// programs of several statements that reach the same file through different table forms: identifiers, quoted
+// paths, table objects, INLINE:: / FILE:: and subqueries, after the table has been loaded, updated or created
+func genTableFormPrograms(r *rand.Rand, tier string) []*Probe {
+	forms := []string{"t", "`t.csv`", "CSV(',', `t.csv`)", "INLINE::('t.csv')", "INLINE::t", "FILE::('t.csv')", "CSV(',', INLINE::('t.csv'))", "(SELECT * FROM t) s", "LTSV(`t.csv`)", "FIXED('[1,3]', `t.csv`)", "JSON('', `t.csv`)"}
+	firsts := []string{"SELECT * FROM %s", "SELECT COUNT(*) FROM %s", "UPDATE t SET a = 9 WHERE a = 1", "INSERT INTO t VALUES (7, 'g')", "DELETE FROM t WHERE a = 1", "SELECT * FROM %s FOR UPDATE",
+		"CREATE TABLE `n.csv` (a, b)", "DECLARE c CURSOR FOR SELECT * FROM %s; OPEN c", "ALTER TABLE t ADD z"}
+	seconds := []string{"SELECT * FROM %s", "SELECT COUNT(*) FROM %s AS x", "SELECT * FROM %s AS x JOIN %s AS y ON TRUE", "UPDATE %s SET a = 2", "INSERT INTO %s VALUES (8, 'h')"}
+	var ps []*Probe
+	for _, f1 := range firsts {
+		for _, s2 := range seconds {
+			for _, form := range forms {
+				if tier != "thorough" && r.Intn(3) != 0 {
+					continue
+				}
+				first := f1
+				if strings.Contains(first, "%s") {
+					first = fmt.Sprintf(first, forms[r.Intn(2)])
+				}
+				second := strings.ReplaceAll(s2, "%s", form)
+				end := []string{"", "; COMMIT", "; ROLLBACK"}[r.Intn(3)]
+				p := sqlProbe("table-forms", "forms", first+"; "+second+end)
+				p.addFile("t.csv", []byte("a,b\n1,x\n2,y\n"))
+				p.Arg = form
+				ps = append(ps, p)
+			}
+		}
+	}
+	return ps
+}
+
 // files around the loaders' size thresholds (the record set is re-allocated from a size estimate when record
 // 301 arrives; ranges of records are handed to several goroutines from 150): regular tables of 1..1000 rows
 // in every text format, in UTF-8 and in encodings whose text grows or shrinks when decoded (UTF-16, Shift_JIS
